@@ -251,6 +251,7 @@ impl Callbacks for Facts {
                 _ => {}
             }
         }
+        let exports = dump_exports(&mut cx);
         let tys = J::A(cx.ty_list.iter().map(|s| J::S(s.clone())).collect());
         let defs = J::A(std::mem::take(&mut cx.def_list));
         let files = J::A(cx.file_list.iter().map(|s| J::S(s.clone())).collect());
@@ -264,6 +265,7 @@ impl Callbacks for Facts {
             ("defs", defs.clone()),
             ("adts", J::A(adts)),
             ("impls", J::A(impls)),
+            ("exports", exports),
             ("fns", J::A(fns)),
         ]);
         let mir = J::O(vec![
@@ -292,6 +294,51 @@ impl Callbacks for Facts {
         );
         Compilation::Continue
     }
+}
+
+/// Shortest public path (from the crate root, through public modules and `pub use` re-exports)
+/// of every local ADT / trait / fn that is nameable from outside the crate.
+fn dump_exports<'tcx>(cx: &mut Cx<'tcx>) -> J {
+    use rustc_hir::def::Res;
+    use std::collections::{HashMap as Map, VecDeque};
+    let tcx = cx.tcx;
+    let mut best: Map<DefId, String> = Map::new();
+    let mut seen: std::collections::HashSet<LocalDefId> = std::collections::HashSet::new();
+    let mut q: VecDeque<(LocalDefId, String)> = VecDeque::new();
+    q.push_back((rustc_hir::def_id::CRATE_DEF_ID, String::new()));
+    while let Some((m, prefix)) = q.pop_front() {
+        if !seen.insert(m) {
+            continue;
+        }
+        for ch in tcx.module_children_local(m) {
+            if !ch.vis.is_public() {
+                continue;
+            }
+            let name = ch.ident.name.to_string();
+            let path = if prefix.is_empty() { name.clone() } else { format!("{}::{}", prefix, name) };
+            if let Res::Def(kind, did) = ch.res {
+                match kind {
+                    DefKind::Mod => {
+                        if let Some(l) = did.as_local() {
+                            q.push_back((l, path));
+                        }
+                    }
+                    DefKind::Struct | DefKind::Enum | DefKind::Union | DefKind::Trait | DefKind::Fn | DefKind::TyAlias => {
+                        if did.is_local() {
+                            let e = best.entry(did).or_insert_with(|| path.clone());
+                            if path.len() < e.len() {
+                                *e = path;
+                            }
+                        }
+                    }
+                    _ => {}
+                }
+            }
+        }
+    }
+    let mut v: Vec<(String, String)> = best.into_iter().map(|(d, p)| (cx.path_str(d), p)).collect();
+    v.sort();
+    J::A(v.into_iter().map(|(a, b)| J::A(vec![J::S(a), J::S(b)])).collect())
 }
 
 fn vis_str<'tcx>(tcx: TyCtxt<'tcx>, v: ty::Visibility<DefId>) -> String {
